@@ -853,6 +853,15 @@ theorem adjustDt_range (C : Ctl K) (hC : C.dtMin ≤ C.dtMax) (dt e d : K) (h : 
   · subst h; exact ⟨hC, le_rfl⟩
   · subst h; exact ⟨not_lt.mp h2, not_lt.mp h1⟩
 
+/-- in exact arithmetic landing on `t_end` after a clipped step is the same as adding the step -/
+theorem landT_eq (tEnd t h : K) : landT tEnd t h = t + h := by
+  unfold landT
+  split_ifs with h1 h2
+  · rfl
+  · rfl
+  · have : h = tEnd - t := le_antisymm (not_lt.mp h2) (not_lt.mp h1)
+    rw [this]; ring
+
 /-- what is known about the last iteration of a finished adaptive call -/
 structure LastStep (C : Ctl K) (tEnd : K) (r : AState K) : Prop where
   ex : ∃ rec : Rec K, r.trace.head? = some rec ∧ rec.accepted = true ∧ r.t = rec.t + rec.dt
@@ -867,7 +876,7 @@ theorem adaptiveLoop_last (C : Ctl K) (est : List K → K → K → List K × K)
   | succ n ih =>
     intro s r hs h
     unfold adaptiveLoop at h
-    simp only at h
+    simp only [landT_eq] at h
     by_cases hacc : (est s.us s.t (dtStep C s.dtOpt tEnd s.t)).2 / C.tol ≤ ((1 : Nat) : K)
     · simp only [hacc, decide_true, ↓reduceIte] at h
       split_ifs at h with hcont
@@ -891,7 +900,7 @@ theorem eulerAdaptiveLoop_last (C : Ctl K) (f : Rate K) (tEnd : K) :
   | succ n ih =>
     intro e r hs h
     unfold eulerAdaptiveLoop at h
-    simp only at h
+    simp only [landT_eq] at h
     generalize hE : maxAbs (List.zipWith (· - ·)
         (List.zipWith (fun u r => u + dtStep C e.s.dtOpt tEnd e.s.t * r) e.s.us e.rate)
         (List.map (fun x => x + ((1 : Nat) : K) / ((2 : Nat) : K) * dtStep C e.s.dtOpt tEnd e.s.t
@@ -1202,7 +1211,7 @@ theorem eulerAdaptiveLoop_global_error (C : Ctl ℝ) (a t0 tEnd : ℝ) (u0s : Li
     intro e r hinv h
     obtain ⟨hrate, hcells⟩ := hinv
     unfold eulerAdaptiveLoop at h
-    simp only at h
+    simp only [landT_eq] at h
     -- the quantities of this iteration on u' = a u
     set hstep := dtStep C e.s.dtOpt tEnd e.s.t with hstep_def
     have hh : 0 ≤ hstep := le_trans hmin.le (dtStep_bounds C e.s.dtOpt tEnd e.s.t).1
@@ -1273,20 +1282,18 @@ noncomputable def witnessCtl : Ctl ℝ :=
   { tol := 1000, dtMin := 1 / 10 ^ 10, dtMax := 10 ^ 10, small := 1 / 1000, up := 4, nan := 1 / 4,
     safety := 9 / 10, expo := -1 / 5, down := 1 / 10, pow := fun _ _ => 1, isNan := fun _ => false }
 
-/-- **the carried rate of adaptive Euler is taken at the old time** (model as the code is: euler.py
-`rate = rhs_pde(step_small, t)` before `t += dt_step`, same in the compiled loop).  On `u' = t`,
-`u(0) = 0`, two accepted steps of `1/4`: the model returns `1/16`; the scheme (every step
-`h/2 g(t) + h/2 g(t + h/2)`) gives `3/32`, the exact solution is `1/8`.  The harness reports this
-on the real code as a stage-time failure (key: rate of accepted state taken at old time); after the
-proposed repair (`rhs_pde(step_small, t + dt_step)`) model and this witness change to `3/32`
-(notes/proposed_fixes/C06-adaptive-euler-rate-time.model.diff). -/
-theorem eulerAdaptive_carried_rate_taken_at_old_time :
+/-- **the carried rate of adaptive Euler is taken at the end of the accepted step** (euler.py
+`rate = rhs_pde(step_small, t + dt_step)`, same in the compiled loop).  On `u' = t`, `u(0) = 0`, two
+accepted steps of `1/4`: the model returns the value of the scheme (every step
+`h/2 g(t) + h/2 g(t + h/2)`), `3/32` (exact solution `1/8`).  Before the repair of py-pde the rate
+was taken at the start of the step and this call returned `1/16`. -/
+theorem eulerAdaptive_carried_rate_taken_at_new_time :
     ∃ r, eulerAdaptiveStepper witnessCtl (cubic 0 1 0 0) 5 [0] 0 (1 / 2) (1 / 4) = .done r
-      ∧ r.t = 1 / 2 ∧ r.steps = 2 ∧ r.us = [1 / 16]
-      ∧ (1 / 16 : ℝ) ≠ 0 + ((1 / 4) / 2 * (0 + 1 / 8) + (1 / 4) / 2 * (1 / 4 + 3 / 8)) := by
-  refine ⟨⟨[1 / 16], 1 / 2, 1, 2, [⟨1 / 4, 1 / 4, 3 / 64000, true⟩, ⟨0, 1 / 4, 1 / 64000, true⟩]⟩,
+      ∧ r.t = 1 / 2 ∧ r.steps = 2 ∧ r.us = [3 / 32]
+      ∧ (3 / 32 : ℝ) = 0 + ((1 / 4) / 2 * (0 + 1 / 8) + (1 / 4) / 2 * (1 / 4 + 3 / 8)) := by
+  refine ⟨⟨[3 / 32], 1 / 2, 1, 2, [⟨1 / 4, 1 / 4, 1 / 64000, true⟩, ⟨0, 1 / 4, 1 / 64000, true⟩]⟩,
     ?_, rfl, rfl, rfl, by norm_num⟩
-  norm_num [eulerAdaptiveStepper, eulerAdaptiveLoop, witnessCtl, dtStep, pmax, pmin, adjustDt, cubic, maxAbs, absK]
+  norm_num [eulerAdaptiveStepper, eulerAdaptiveLoop, witnessCtl, dtStep, pmax, pmin, landT, adjustDt, cubic, maxAbs, absK]
 
 end carriedRate
 
@@ -1326,7 +1333,7 @@ theorem adaptiveLoop_richardson_global_error (C : Ctl ℝ) (a t0 tEnd : ℝ) (u0
   | succ n ih =>
     intro s r hcells h
     unfold adaptiveLoop at h
-    simp only at h
+    simp only [landT_eq] at h
     set hstep := dtStep C s.dtOpt tEnd s.t with hstep_def
     have hh : 0 ≤ hstep := le_trans hmin.le (dtStep_bounds C s.dtOpt tEnd s.t).1
     rw [eulerRichardson_linear] at h
@@ -1505,7 +1512,7 @@ theorem adaptiveLoop_rkf45_global_error (C : Ctl ℝ) (a t0 tEnd : ℝ) (u0s : L
     intro s r hinv h
     obtain ⟨hus, hsteps, hcells⟩ := hinv
     unfold adaptiveLoop at h
-    simp only at h
+    simp only [landT_eq] at h
     set hstep := dtStep C s.dtOpt tEnd s.t with hstep_def
     have hh : 0 ≤ hstep := le_trans hmin.le (dtStep_bounds C s.dtOpt tEnd s.t).1
     rw [rkf45Est_linear] at h
@@ -1691,7 +1698,7 @@ noncomputable def exampleCtl : Ctl ℝ := ctlOf 1 (1 / 10 ^ 10) (10 ^ 10) (fun _
 example : ∃ r, adaptiveStepper exampleCtl (eulerRichardson (linear (-1))) 5 [1] 0 (1 / 2) 1 = .done r
     ∧ r.t = 1 / 2 ∧ r.steps = 1 ∧ r.us = [9 / 16] := by
   refine ⟨⟨[9 / 16], 1 / 2, 1, 1, [⟨0, 1 / 2, 1 / 16, true⟩]⟩, ?_, rfl, rfl, rfl⟩
-  norm_num [adaptiveStepper, adaptiveLoop, exampleCtl, ctlOf, dtStep, pmax, pmin, eulerRichardson, richardson,
+  norm_num [adaptiveStepper, adaptiveLoop, exampleCtl, ctlOf, dtStep, pmax, pmin, landT, eulerRichardson, richardson,
     eulerVar, linear, maxAbs, absK]
 
 /-- the hypotheses of `adaptive_euler_global_error` are satisfiable: `a = -1`, one step `h = 1/2`
